@@ -190,6 +190,7 @@ LEX = {}
 
 def _lex(name, terms, ignore=(), tags=()):
     used = [t.name for t in terms if t.name not in ignore]
+    ignore = list(ignore)
     LEX[name] = dict(g=Grammar([Rule('start', [[Star(Grp(*[[T(n)] for n in used]))]])], terms=terms, ignore=ignore, name=name), tags=set(tags))
 
 
@@ -198,5 +199,9 @@ _lex('kwid', [Term('NAME', ('re', '[a-z]+')), Term('IF', 'if'), Term('ON', 'on',
 _lex('prio', [Term('A', ('re', 'a+'), priority=2), Term('B', ('re', 'a+b?')), Term('C', 'ab'), Term('D', ('re', '[ab]c')), Term('E', 'abc', priority=1)])
 _lex('prio2', [Term('WORD', ('re', '[a-z]+'), priority=2), Term('IF', 'if'), Term('NUM', ('re', '[0-9]+')), Term('X', 'x', priority=3),
                Term('LOW', ('re', '[a-z0-9]+'), priority=-1), Term('EQ', '12', priority=-1)])
+# inline %ignore patterns (anonymous terminals with default priority) that overlap terminals which sort first
+_lex('ign_inline', [Term('INDENT', ('re', r'\n +')), Term('DASH2', '--'), Term('W', ('re', '[a-z]+'))], ignore=[r'/\s+/', '"-"'])
+# a verbose-flag regexp: its source text is longer than what it matches (width must be that of the regexp with its flags)
+_lex('xflag', [Term('ABC', ('re', ' a b c '), flags='x'), Term('ABCD', 'abcd'), Term('D', 'd'), Term('AB', 'ab')])
 _lex('eqw', [Term('X', ('re', '[ab]')), Term('Y', ('re', '[bc]')), Term('Z', 'b'), Term('W', ('re', '[cd][cd]')), Term('V', 'cd')])
 _lex('ci', [Term('NAME', ('re', '[a-zA-Z]+')), Term('SEL', 'se', flags='i'), Term('KW', 'Se'), Term('NUM', ('re', '[0-9]')), Term('SP', ' ')], ignore=['SP'])
